@@ -65,6 +65,11 @@ def mk_argvals(spec):
         return IrregularArgvals({0: np.arange(3.0)})
     if how == "irr-str-key":
         return IrregularArgvals({"a": DenseArgvals({"input_dim_0": np.arange(3.0)})})
+    if how == "irr-nested":      # an IrregularArgvals as item of an IrregularArgvals (items must be DenseArgvals)
+        return IrregularArgvals({k: IrregularArgvals({0: DenseArgvals({"input_dim_0": _grid(1, n)})})
+                                 for k, n in enumerate((3, 4, 2))})
+    if how == "dense-nested":    # a DenseArgvals as item of a DenseArgvals (items must be arrays)
+        return DenseArgvals({"input_dim_0": DenseArgvals({"input_dim_0": _grid(1, 5)})})
     if how == "dict":
         return {"input_dim_0": np.arange(3.0)}
     if how == "ndarray":
@@ -90,13 +95,15 @@ def mk_values(spec):
         return IrregularValues({0: [1.0, 2.0]})
     if how == "irr-str-key":
         return IrregularValues({"a": np.arange(3.0)})
+    if how == "irr-nested":
+        return IrregularValues({k: IrregularValues({0: np.arange(float(n))}) for k, n in enumerate((3, 4, 2))})
     if how == "dict":
         return {0: np.arange(3.0)}
     return None
 
 
-WRONG_A = ["list-value", "int-key", "irr-array-value", "irr-str-key", "dict", "ndarray", "none"]
-WRONG_V = ["ndarray", "list", "irr-list-value", "irr-str-key", "dict", "none"]
+WRONG_A = ["list-value", "int-key", "irr-array-value", "irr-str-key", "dict", "ndarray", "none", "irr-nested", "dense-nested"]
+WRONG_V = ["ndarray", "list", "irr-list-value", "irr-str-key", "dict", "none", "irr-nested"]
 
 # the pool of components / concatenation partners: token -> specification
 POOL = {
@@ -883,6 +890,7 @@ def alphabets():
           {"op": "construct", "kind": "irr", "a": {"t": "irr", "pts": p3}, "v": {"t": "irr", "pts": p3[:2]}},
           {"op": "set_argvals", "a": {"t": "irr", "pts": p3[::-1]}}, {"op": "set_argvals", "a": {"t": "irr", "pts": p3[:2]}},
           {"op": "set_argvals", "a": {"t": "wrong", "how": "irr-array-value"}},
+          {"op": "set_argvals", "a": {"t": "wrong", "how": "irr-nested"}},
           {"op": "set_values", "v": {"t": "irr", "pts": p3}}, {"op": "set_values", "v": {"t": "irr", "pts": [[0, [3]], [1, [4]], [2, [3]]]}},
           {"op": "set_values", "v": {"t": "wrong", "how": "irr-str-key"}},
           {"op": "set_stand", "a": {"t": "irr", "pts": p3}}, {"op": "set_stand", "a": {"t": "irr", "pts": [[0, [3]], [1, [2]], [2, [2]]]}},
